@@ -2607,6 +2607,9 @@ impl CanonicalizeContext {
 			add_attrs(script, &lifted_base.attributes());
 			script.remove_attribute("data-split");		// doesn't make sense on mmultiscripts
 			script.remove_attribute("mathvariant");		// doesn't make sense on mmultiscripts
+			if lifted_base == base {
+				script.remove_attribute("id");			// 'base' is still in the tree (as a child) and keeps its id
+			}
 			mrow_children[i_multiscript] = ChildOfElement::Element(script);
 			mrow_children.drain(i_multiscript+1..i_postscript);	// remove children after the first
 
